@@ -17,8 +17,7 @@ import JaqalProofs.Props.C14
 * `C05_revalidate` — every value of the result satisfies `ValOK` (C14): indices and slices are re-checked against the
   NEW sizes; `C05_shrink_rejected`: an override that shrinks a register below a used index is rejected.
 * `C05_idempotent_val` — every visited value is a fixed point of any later visit; the circuit-level statement is kept as
-  `def C05_idempotent_full` (not proved: needs totality of the rebuild; checked by the differential test on the model and
-  on the real code).
+  `def C05_idempotent_full`, proved as `C05_idempotent` in `Props/C10.lean` (via `Lemmas/PassesIdem.lean`).
 -/
 namespace Jaqal.FillIn
 open Jaqal Jaqal.Builder Jaqal.Sem
@@ -580,10 +579,10 @@ theorem C05_idempotent_val {ov : List (String × Num)} : ∀ (v : Val) (rv : Boo
   | none => intro rv v' h ov2 rv2; cases h; rfl
   | str _ => intro rv v' h ov2 rv2; cases h; rfl
 
-/-- **C05_idempotent at full strength (NOT proved)**: a second `fill_in_let`, with any overrides, returns the circuit
-unchanged. Missing: totality of the rebuild (the `Builder` lemmas used here invert a SUCCESSFUL build; that the second
-build succeeds and picks the same gate definitions needs the converse direction). Checked by the differential test
-(oracle `idempotent` on the real code, thousands of cases). -/
+/-- **C05_idempotent at full strength**: a second `fill_in_let`, with any overrides, returns the circuit unchanged.
+Stated here; PROVED as `C05_idempotent` in `Props/C10.lean` (`fillInLet_idempotent`, `Lemmas/PassesIdem.lean`: the second run
+hands the builder the very S-expression of the first under a configuration it cannot tell apart).  Also checked on the real
+code by the oracle `idempotent`. -/
 def C05_idempotent_full : Prop :=
   ∀ (ov ov2 : List (String × Num)) (c c' : Circuit), WellFormed c → fillInLet ov c = .ok c' → fillInLet ov2 c' = .ok c'
 
